@@ -51,6 +51,7 @@ def tree_knobs(rng, k):
         box=float(rng.choice([1.0, 500.0, 2000.0])),
         velz=float(rng.choice([37.0, 1234.5, 9.1e4])),
         ppd=int(rng.choice([1, 64, 6912])),
+        ppd_form=('cube-root' if k % 3 == 1 else None),  # header ppd = NP**(1/3.), e.g. 63.99999999999999
         nprev=int(rng.integers(1, 4)),
         compression=[None, None, 'zlib', 'blsc'][k % 4],
         gap_prob=float(rng.choice([0.0, 0.5, 1.0])),
@@ -212,8 +213,25 @@ def one_tree(run, rng, k, nconf):
 
 def lc_trees(run, rng, n):
     for k in range(n):
-        L = gen_catalog.make_lc_tree(rng, H=int(rng.integers(0, 60)), compression=[None, 'zlib', 'blsc'][k % 3])
+        L = gen_catalog.make_lc_tree(rng, H=int(rng.integers(0, 60)), compression=[None, 'zlib', 'blsc'][k % 3], unordered=bool(k % 2))
         try:
+            # filtered loads (rows dropped at the start, the end, in between): each kept row's slice still holds the particles its
+            # stored start/count address in the particle file
+            for fj, keepf in enumerate((lambda h: np.arange(len(h)) % 3 != 0, lambda h: np.arange(len(h)) >= len(h) // 2, lambda h: np.arange(len(h)) < max(1, len(h) - 2), lambda h: np.asarray(h['N']) % 2 == 0)):
+                desc = dict(layout='light_cone', H=L['H'], rows_in_particle_order=not bool(k % 2), subsamples='A, pid+pos', fields='all', filter=['every-third-dropped', 'first-half-dropped', 'last-two-dropped', 'N even'][fj])
+                run.progress(desc)
+                run.ev()
+                cat, err = catoracle.load(L['path'], subsamples=dict(A=True, pid=True, pos=True), fields='all', filter_func=keepf)
+                run.count('loads')
+                if err is not None:
+                    run.count('load_errors')
+                    run.violation('subsample-load-fails', dict(error=f'{type(err).__name__}: {err}'[:200], **desc))
+                    continue
+                run.count('loads_ok')
+                run.count('filtered_light_cone_loads')
+                mask = np.arange(L['H']) % 3 != 0 if fj == 0 else (np.arange(L['H']) >= L['H'] // 2 if fj == 1 else (np.arange(L['H']) < max(1, L['H'] - 2) if fj == 2 else L['raw']['N'] % 2 == 0))
+                run.nt(('lc-filter', k, fj))
+                catoracle.check_lc_subsamples(run, cat, L, mask=mask, desc=desc)
             for sub in (True, dict(A=True, pid=True), dict(A=True, B=True, pos=True), dict(rv=True)):
                 for fields in ('DEFAULT_FIELDS', 'all', ['N', 'npstartA', 'npoutA', 'x_L2com']):
                     desc = dict(layout='light_cone', H=L['H'], subsamples=sub if sub is True else dict(sub), fields=fields)
